@@ -30,24 +30,25 @@ Proof.
   - apply negb_true_iff. now apply Nat.eqb_neq.
 Qed.
 
-(* ---------- the invariant ---------- *)
+(* ---------- the invariant (of the repaired protocol, `step true`) ---------- *)
 Section Protocol.
   Variable o : options.
 
   Definition awake (s : pstate) : Prop :=
     exists k, nth_error (p_c s) k = Some CSelect \/ exists c, nth_error (p_c s) k = Some (CRun c).
-  Definition dead (s : pstate) : Prop := exists k, nth_error (p_c s) k = Some CDead.
-  Definition idle_ok (s : pstate) : Prop :=
-    exists out, next_compaction o (p_v s) (ongoing s) = Ok out /\ nc_choice out = None.
+  Definition nobody_waits (s : pstate) : Prop := forall k, nth_error (p_c s) k <> Some CWait.
+  (* the selector, asked now, would not hand out a compaction *)
+  Definition no_work (s : pstate) : Prop :=
+    forall out c, next_compaction o (p_v s) (ongoing s) = Ok out -> nc_choice out <> Some c.
 
   Record Inv (s : pstate) : Prop := mkInv {
     (* every ongoing compaction belongs to a thread that is performing it *)
     i_og : forall k c, In (k, c) (p_og s) -> exists co, nth_error (p_c s) k = Some (CRun co) /\ cc co = c;
     (* a thread sleeps on `stall` only while the stall condition holds *)
     i_stall : forall i f, nth_error (p_i s) i = Some (IWait f) -> should_stall_ingest o (p_v s) = true;
-    (* unless some compaction thread is awake (or gone), the selector has nothing to offer *)
-    i_compact : awake s \/ dead s \/ idle_ok s;
-    i_threads : p_c s <> [] }.
+    (* a thread sleeps on `compact` only while some compaction thread is awake or the selector
+       has nothing to offer *)
+    i_compact : awake s \/ no_work s \/ nobody_waits s }.
 
   Lemma init_inv v nc ni : Inv (init v nc ni).
   Proof.
@@ -55,22 +56,12 @@ Section Protocol.
     - intros k c [].
     - intros i f H. exfalso. revert i H. induction ni as [|n IH]; intros [|i] H; cbn in H; try discriminate. eauto.
     - left. exists O. left. reflexivity.
-    - discriminate.
   Qed.
 
-  Lemma set_nth_nonnil {A} i (x : A) l : l <> [] -> set_nth i x l <> [].
-  Proof. intros H C. apply H. apply length_zero_iff_nil. rewrite <- (set_nth_length i x l), C. reflexivity. Qed.
-
   (* after compact.notify_all nobody is parked on `compact` *)
-  Lemma woken_awake_or_dead cs : cs <> [] ->
-    (exists k, nth_error (map wake_c cs) k = Some CSelect \/ exists c, nth_error (map wake_c cs) k = Some (CRun c)) \/
-    (exists k, nth_error (map wake_c cs) k = Some CDead).
+  Lemma woken_nobody_waits cs k : nth_error (map wake_c cs) k <> Some CWait.
   Proof.
-    destruct cs as [|p cs]; [congruence|]. intros _. destruct p as [| |c|].
-    - left. exists O. left. reflexivity.
-    - left. exists O. left. reflexivity.
-    - left. exists O. right. exists c. reflexivity.
-    - right. exists O. reflexivity.
+    rewrite nth_error_map'. destruct (nth_error cs k) as [[| |c|]|]; cbn; discriminate.
   Qed.
 
   Lemma og_other_thread s k x : (forall c, nth_error (p_c s) k <> Some (CRun c)) -> Inv s ->
@@ -80,23 +71,21 @@ Section Protocol.
     exists co. split; [|exact H2]. rewrite nth_error_set_nth_neq; [exact H1|]. intros ->. exact (Hk co H1).
   Qed.
 
-  Theorem step_inv s s' : Inv s -> step o s s' -> Inv s'.
+  Theorem step_inv s s' : Inv s -> step true o s s' -> Inv s'.
   Proof.
     intros I St. destruct St as
       [s i f Hi | s i f Hi Hs | s i f Hi Hs | s i f Hi
-      | s k out c Hk Hn Hc | s k out Hk Hn Hc | s k Hk Hn | s k c outs Hk | s k c Hk | s k Hk].
+      | s k out c Hk Hn Hc | s k out Hk Hn Hc | s k Hk Hn | s k c outs Hk | s k c Hk | s k c outs Hk | s k Hk].
     - (* arrive *) constructor; cbn [p_v p_og p_c p_i].
       + exact (i_og s I).
       + intros j g Hj. destruct (Nat.eq_dec i j) as [<-|Hne].
         * rewrite (nth_error_set_nth_eq _ _ _ _ Hi) in Hj. discriminate.
         * rewrite nth_error_set_nth_neq in Hj by exact Hne. exact (i_stall s I j g Hj).
       + exact (i_compact s I).
-      + exact (i_threads s I).
     - (* ingest waits *) constructor; cbn [p_v p_og p_c p_i].
       + exact (i_og s I).
       + intros j g Hj. exact Hs.
       + exact (i_compact s I).
-      + exact (i_threads s I).
     - (* ingest done *) constructor; cbn [p_v p_og p_c p_i].
       + intros k c Hin. destruct (i_og s I k c Hin) as [co [H1 H2]]. exists co. split; [|exact H2].
         rewrite nth_error_map', H1. reflexivity.
@@ -104,88 +93,87 @@ Section Protocol.
         * rewrite (nth_error_set_nth_eq _ _ _ _ Hi) in Hj. discriminate.
         * rewrite nth_error_set_nth_neq in Hj by exact Hne.
           pose proof (i_stall s I j g Hj) as C. congruence.
-      + destruct (woken_awake_or_dead (p_c s) (i_threads s I)) as [A|D]; [left|right; left]; assumption.
-      + intros C. apply (i_threads s I). destruct (p_c s); [reflexivity|discriminate].
+      + right; right. intros k. apply woken_nobody_waits.
     - (* spurious wake-up on stall *) constructor; cbn [p_v p_og p_c p_i].
       + exact (i_og s I).
       + intros j g Hj. destruct (Nat.eq_dec i j) as [<-|Hne].
         * rewrite (nth_error_set_nth_eq _ _ _ _ Hi) in Hj. discriminate.
         * rewrite nth_error_set_nth_neq in Hj by exact Hne. exact (i_stall s I j g Hj).
       + exact (i_compact s I).
-      + exact (i_threads s I).
     - (* select: some *) constructor; cbn [p_v p_og p_c p_i].
       + intros k' c' Hin. apply in_app_or in Hin. destruct Hin as [Hin|[E|[]]].
         * apply (og_other_thread s k (CRun c)); auto. intros c0 C. congruence.
         * inversion E; subst. exists c. split; [|reflexivity]. eapply nth_error_set_nth_eq; eauto.
       + exact (i_stall s I).
       + left. exists k. right. exists c. eapply nth_error_set_nth_eq; eauto.
-      + apply set_nth_nonnil. exact (i_threads s I).
     - (* select: none *) constructor; cbn [p_v p_og p_c p_i].
       + apply (og_other_thread s k CWait); auto. intros c0 C. congruence.
       + exact (i_stall s I).
-      + right; right. exists out. split; [exact Hn|exact Hc].
-      + apply set_nth_nonnil. exact (i_threads s I).
-    - (* select: the thread dies *) constructor; cbn [p_v p_og p_c p_i].
+      + right; left. intros out' c' H. unfold ongoing in *. cbn [p_v p_og] in H. congruence.
+    - (* select: the selector does not return *) constructor; cbn [p_v p_og p_c p_i].
       + apply (og_other_thread s k CDead); auto. intros c0 C. congruence.
       + exact (i_stall s I).
-      + right; left. exists k. eapply nth_error_set_nth_eq; eauto.
-      + apply set_nth_nonnil. exact (i_threads s I).
+      + right; left. intros out' c' H. exfalso. exact (Hn out' H).
     - (* apply *) constructor; cbn [p_v p_og p_c p_i].
       + intros k' c' Hin. apply in_drop_thread in Hin. destruct Hin as [Hin Hne]. cbn [fst] in Hne.
         destruct (i_og s I k' c' Hin) as [co [H1 H2]]. exists co. split; [|exact H2].
         rewrite nth_error_set_nth_neq; [exact H1|congruence].
       + intros j g Hj. rewrite nth_error_map' in Hj. destruct (nth_error (p_i s) j) as [[| |]|]; cbn in Hj; discriminate.
       + left. exists k. left. eapply nth_error_set_nth_eq; eauto.
-      + apply set_nth_nonnil. exact (i_threads s I).
-    - (* perform_compaction failed *) constructor; cbn [p_v p_og p_c p_i].
+    - (* perform_compaction failed: release, notify_all on `compact`, return *) constructor; cbn [p_v p_og p_c p_i].
       + intros k' c' Hin. apply in_drop_thread in Hin. destruct Hin as [Hin Hne]. cbn [fst] in Hne.
         destruct (i_og s I k' c' Hin) as [co [H1 H2]]. exists co. split; [|exact H2].
-        rewrite nth_error_set_nth_neq; [exact H1|congruence].
+        rewrite nth_error_map', nth_error_set_nth_neq; [rewrite H1; reflexivity|congruence].
       + exact (i_stall s I).
-      + right; left. exists k. eapply nth_error_set_nth_eq; eauto.
-      + apply set_nth_nonnil. exact (i_threads s I).
+      + right; right. intros k'. apply woken_nobody_waits.
+    - (* applied, then the clean-up failed *) constructor; cbn [p_v p_og p_c p_i].
+      + intros k' c' Hin. apply in_drop_thread in Hin. destruct Hin as [Hin Hne]. cbn [fst] in Hne.
+        destruct (i_og s I k' c' Hin) as [co [H1 H2]]. exists co. split; [|exact H2].
+        rewrite nth_error_map', nth_error_set_nth_neq; [rewrite H1; reflexivity|congruence].
+      + intros j g Hj. rewrite nth_error_map' in Hj. destruct (nth_error (p_i s) j) as [[| |]|]; cbn in Hj; discriminate.
+      + right; right. intros k'. apply woken_nobody_waits.
     - (* spurious wake-up on compact *) constructor; cbn [p_v p_og p_c p_i].
       + apply (og_other_thread s k CSelect); auto. intros c0 C. congruence.
       + exact (i_stall s I).
       + left. exists k. left. eapply nth_error_set_nth_eq; eauto.
-      + apply set_nth_nonnil. exact (i_threads s I).
   Qed.
 
-  Theorem steps_inv s s' : Inv s -> steps o s s' -> Inv s'.
+  Theorem steps_inv s s' : Inv s -> steps true o s s' -> Inv s'.
   Proof. intros I St. induction St as [|s1 s2 s3 St IH St1]; [exact I|]. eapply step_inv; [apply IH; exact I|exact St1]. Qed.
 
-  Theorem reachable_inv v nc ni s : steps o (init v nc ni) s -> Inv s.
+  Theorem reachable_inv v nc ni s : steps true o (init v nc ni) s -> Inv s.
   Proof. apply steps_inv, init_inv. Qed.
 
   (* ---------- no lost wake-up ---------- *)
   (* `stall`: whoever sleeps on it still has its reason to sleep; equivalently, the event that
      makes should_stall_ingest false (an applied compaction) has woken every sleeper *)
-  Theorem no_lost_wakeup_stall v nc ni s i f : steps o (init v nc ni) s ->
+  Theorem no_lost_wakeup_stall v nc ni s i f : steps true o (init v nc ni) s ->
     nth_error (p_i s) i = Some (IWait f) -> should_stall_ingest o (p_v s) = true.
   Proof. intros R. exact (i_stall s (reachable_inv v nc ni s R) i f). Qed.
 
-  (* `compact`: when every compaction thread sleeps, nothing is ongoing and the selector, asked
-     now, finds nothing; equivalently, every event that creates work (an ingest) or is followed
-     by a re-selection (an applied compaction) leaves some compaction thread awake *)
-  Theorem no_lost_wakeup_compact v nc ni s : steps o (init v nc ni) s -> all_compactors_parked s ->
-    p_og s = [] /\ exists out, next_compaction o (p_v s) [] = Ok out /\ nc_choice out = None.
+  (* `compact`: when every compaction thread that has not returned sleeps (and at least one is
+     left), nothing is ongoing and the selector, asked now, hands out nothing: every event that
+     creates work - an ingest, an applied compaction (followed by a re-selection), a released
+     compaction - leaves some compaction thread awake *)
+  Theorem no_lost_wakeup_compact v nc ni s : steps true o (init v nc ni) s -> all_compactors_parked s ->
+    p_og s = [] /\ forall out c, next_compaction o (p_v s) [] = Ok out -> nc_choice out <> Some c.
   Proof.
-    intros R AP. pose proof (reachable_inv v nc ni s R) as I.
+    intros R [AP [kw Hw]]. pose proof (reachable_inv v nc ni s R) as I.
     assert (E : p_og s = []).
     { destruct (p_og s) as [|[k c] r] eqn:EO; [reflexivity|exfalso].
-      destruct (i_og s I k c) as [co [H _]]; [rewrite EO; now left|]. specialize (AP k _ H). discriminate. }
+      destruct (i_og s I k c) as [co [H _]]; [rewrite EO; now left|]. destruct (AP k _ H); discriminate. }
     split; [exact E|].
-    destruct (i_compact s I) as [[k [A|[c A]]]|[[k D]|[out [H1 H2]]]].
-    - specialize (AP k _ A). discriminate.
-    - specialize (AP k _ A). discriminate.
-    - specialize (AP k _ D). discriminate.
-    - exists out. unfold ongoing in H1. rewrite E in H1. cbn in H1. split; assumption.
+    destruct (i_compact s I) as [[k [A|[c A]]]|[N|N]].
+    - destruct (AP k _ A); discriminate.
+    - destruct (AP k _ A); discriminate.
+    - unfold no_work, ongoing in N. rewrite E in N. exact N.
+    - exfalso. exact (N kw Hw).
   Qed.
 
   (* ---------- what a state with all store threads parked looks like ---------- *)
-  Theorem all_parked_is_unrelievable_stall v nc ni s : steps o (init v nc ni) s -> all_parked s ->
+  Theorem all_parked_is_unrelievable_stall v nc ni s : steps true o (init v nc ni) s -> all_parked s ->
     should_stall_ingest o (p_v s) = true /\ p_og s = [] /\
-    exists out, next_compaction o (p_v s) [] = Ok out /\ nc_choice out = None.
+    forall out c, next_compaction o (p_v s) [] = Ok out -> nc_choice out <> Some c.
   Proof.
     intros R (AC & _ & (i & f & Hi)). split.
     - eapply no_lost_wakeup_stall; eauto.
@@ -194,31 +182,30 @@ Section Protocol.
 
   (* outside the known class the store never gets there: with the tree well-formed, some store
      thread is always awake or about to be woken while an ingest waits *)
-  Theorem no_deadlock_outside_known v nc ni s : steps o (init v nc ni) s ->
+  Theorem no_deadlock_outside_known v nc ni s : steps true o (init v nc ni) s ->
     sel_wfb (p_v s) = true -> known_stall o (p_v s) = false -> ~ all_parked s.
   Proof.
-    intros R W K AP. destruct (all_parked_is_unrelievable_stall v nc ni s R AP) as (_ & _ & out & H1 & H2).
-    destruct (stall_relievable_outside_known o (p_v s) W K) as (out' & c & H3 & H4). congruence.
+    intros R W K AP. destruct (all_parked_is_unrelievable_stall v nc ni s R AP) as (_ & _ & N).
+    destruct (stall_relievable_outside_known o (p_v s) W K) as (out' & c & H3 & H4). exact (N out' c H3 H4).
   Qed.
 
   (* ---------- and such a state is permanent ---------- *)
   Definition stuck (s : pstate) : Prop :=
     should_stall_ingest o (p_v s) = true /\ p_og s = [] /\
-    (exists out, next_compaction o (p_v s) [] = Ok out /\ nc_choice out = None) /\
+    (forall out c, next_compaction o (p_v s) [] = Ok out -> nc_choice out <> Some c) /\
     (forall k c, nth_error (p_c s) k <> Some (CRun c)).
 
-  Lemma stuck_step s s' : stuck s -> step o s s' ->
+  Lemma stuck_step s s' : stuck s -> step true o s s' ->
     stuck s' /\ p_v s' = p_v s /\
     (forall i, (exists f, nth_error (p_i s) i = Some (ICheck f) \/ nth_error (p_i s) i = Some (IWait f)) ->
                (exists f, nth_error (p_i s') i = Some (ICheck f) \/ nth_error (p_i s') i = Some (IWait f))).
   Proof.
-    intros (S1 & S2 & (out0 & S3 & S3') & S4) St.
+    intros (S1 & S2 & S3 & S4) St.
     assert (MK : forall cs is', (forall k c, nth_error cs k <> Some (CRun c)) -> stuck (mkP (p_v s) (p_og s) cs is')).
-    { intros cs is' H. unfold stuck. cbn [p_v p_og p_c p_i]. split; [exact S1|]. split; [exact S2|]. split; [|exact H].
-      exists out0. split; assumption. }
+    { intros cs is' H. unfold stuck. cbn [p_v p_og p_c p_i]. split; [exact S1|]. split; [exact S2|]. split; [exact S3|exact H]. }
     destruct St as
       [s i f Hi | s i f Hi Hs | s i f Hi Hs | s i f Hi
-      | s k out c Hk Hn Hc | s k out Hk Hn Hc | s k Hk Hn | s k c outs Hk | s k c Hk | s k Hk]; cbn [p_v p_og p_c p_i] in *.
+      | s k out c Hk Hn Hc | s k out Hk Hn Hc | s k Hk Hn | s k c outs Hk | s k c Hk | s k c outs Hk | s k Hk]; cbn [p_v p_og p_c p_i] in *.
     - split; [apply MK; exact S4|]. split; [reflexivity|]. intros j [g Hj].
       destruct (Nat.eq_dec i j) as [<-|Hne]; [destruct Hj as [Hj|Hj]; congruence|].
       exists g. now rewrite nth_error_set_nth_neq by exact Hne.
@@ -231,12 +218,16 @@ Section Protocol.
       destruct (Nat.eq_dec i j) as [<-|Hne].
       + exists f. left. eapply nth_error_set_nth_eq; eauto.
       + exists g. now rewrite nth_error_set_nth_neq by exact Hne.
-    - exfalso. unfold ongoing in Hn. cbn [p_og] in Hn. rewrite S2 in Hn. cbn in Hn. congruence.
+    - exfalso. unfold ongoing in Hn. cbn [p_og] in Hn. rewrite S2 in Hn. cbn in Hn. exact (S3 out c Hn Hc).
     - split; [|split; [reflexivity|auto]]. apply MK.
       intros k' c' C. destruct (Nat.eq_dec k k') as [<-|Hne].
       + rewrite (nth_error_set_nth_eq _ _ _ _ Hk) in C. discriminate.
       + rewrite nth_error_set_nth_neq in C by exact Hne. exact (S4 k' c' C).
-    - exfalso. unfold ongoing in Hn. cbn [p_og] in Hn. rewrite S2 in Hn. cbn in Hn. exact (Hn out0 S3).
+    - split; [|split; [reflexivity|auto]]. apply MK.
+      intros k' c' C. destruct (Nat.eq_dec k k') as [<-|Hne].
+      + rewrite (nth_error_set_nth_eq _ _ _ _ Hk) in C. discriminate.
+      + rewrite nth_error_set_nth_neq in C by exact Hne. exact (S4 k' c' C).
+    - exfalso. exact (S4 k c Hk).
     - exfalso. exact (S4 k c Hk).
     - exfalso. exact (S4 k c Hk).
     - split; [|split; [reflexivity|auto]]. apply MK.
@@ -246,7 +237,7 @@ Section Protocol.
   Qed.
 
   (* from a stuck state on, the tree never changes and no waiting ingest ever returns *)
-  Theorem stall_is_forever s s' : stuck s -> steps o s s' ->
+  Theorem stall_is_forever s s' : stuck s -> steps true o s s' ->
     stuck s' /\ p_v s' = p_v s /\
     (forall i, (exists f, nth_error (p_i s) i = Some (ICheck f) \/ nth_error (p_i s) i = Some (IWait f)) ->
                (exists f, nth_error (p_i s') i = Some (ICheck f) \/ nth_error (p_i s') i = Some (IWait f))).
@@ -256,9 +247,9 @@ Section Protocol.
     split; [exact A'|]. split; [congruence|]. intros i Hi. apply C', C, Hi.
   Qed.
 
-  Lemma all_parked_stuck v nc ni s : steps o (init v nc ni) s -> all_parked s -> stuck s.
+  Lemma all_parked_stuck v nc ni s : steps true o (init v nc ni) s -> all_parked s -> stuck s.
   Proof.
     intros R AP. destruct (all_parked_is_unrelievable_stall v nc ni s R AP) as (A & B & C).
-    repeat split; auto. intros k c H. destruct AP as (AC & _). specialize (AC k _ H). discriminate.
+    repeat split; auto. intros k c H. destruct AP as ((AC & _) & _). destruct (AC k _ H); discriminate.
   Qed.
 End Protocol.
